@@ -17,8 +17,8 @@ ASSUMPTIONS = ['stub network = Conv2d(kernel (H,4), stride 4) with a blank bias:
                'float32 logits compared within 1e-4; sparse entries with posterior within +-20 % of 1e-4 are not judged',
                'for truncated lines (padded batch wider than 480*batch) only order-independence and the window start are required']
 N = {'quick': 160, 'thorough': 8000}
-CLASSES = ['mixed', 'mixed', 'equal_widths', 'tiny', 'long', 'page_ocr', 'empty_or_single', 'mixed', 'extreme_logits', 'masked_alphabet', 'embedding', 'page_ocr_many', 'after_fault', 'cold_logits', 'changed_limit']
-REQUIRED = ['cold_logit_lists', 'lists_after_the_pixel_budget_was_changed', 'calls_after_an_injected_network_fault', 'page_ocr_lines_recognised_again_after_recropping', 'masked_alphabet_lists', 'embedding_lists', 'page_ocr_pages_over_512_lines', 'lists', 'lines_checked', 'window_checked', 'dense_compared', 'sparse_compared', 'tight_compared', 'nologits_checked', 'permutations_checked', 'truncated_lines', 'page_ocr_lines', 'multi_batch_lists', 'extreme_logit_lists']
+CLASSES = ['mixed', 'mixed', 'equal_widths', 'tiny', 'long', 'page_ocr', 'empty_or_single', 'mixed', 'extreme_logits', 'masked_alphabet', 'embedding', 'page_ocr_many', 'after_fault', 'cold_logits', 'changed_limit', 'changed_padding', 'transformer_mode']
+REQUIRED = ['page_ocr_pages_with_blank_crops_of_equal_byte_size', 'transformer_lists_with_transcriptions_of_different_lengths', 'lists_with_another_padding', 'cold_logit_lists', 'lists_after_the_pixel_budget_was_changed', 'calls_after_an_injected_network_fault', 'page_ocr_lines_recognised_again_after_recropping', 'masked_alphabet_lists', 'embedding_lists', 'page_ocr_pages_over_512_lines', 'lists', 'lines_checked', 'window_checked', 'dense_compared', 'sparse_compared', 'tight_compared', 'nologits_checked', 'permutations_checked', 'truncated_lines', 'page_ocr_lines', 'multi_batch_lists', 'extreme_logit_lists']
 H = 16
 CHARS = list('abcdefgh ')
 
@@ -46,6 +46,10 @@ def setup(ctx):
     # a two-input model (image, embedding id); the engines live for the whole run and their embed_id is re-assigned from case to case (user_scripts/select_embed_id.py does that)
     ctx.json_emb, ctx.net_emb = stubs.make_ocr_engine_dir(ctx.tmpdir + '/eng_emb', CHARS, H=H, seed=9, blank_bias=2.0, wscale=1.0, embed_num=4, embed_id='mean')
     ctx.engines_emb = {bs: PytorchEngineLineOCR(ctx.json_emb, torch.device('cpu'), batch_size=bs) for bs in (1, 2, 5)}
+    # engines whose horizontal padding is re-assigned after construction (also to values that are not a multiple of the frame width)
+    ctx.engines_pad = {bs: PytorchEngineLineOCR(ctx.json, torch.device('cpu'), batch_size=bs) for bs in (1, 3, 8)}
+    # a sequence-to-sequence engine (one logit row per output character): a tiny transformer whose transcriptions differ in length from line to line
+    ctx.teng = stubs.make_transformer_engine(ctx.tmpdir + '/teng', 12, H=32, dim=16, heads=2, dff=32, enc=1, dec=2, eos_bias=2.0)
     cfg = configparser.ConfigParser()
     cfg.read_dict({'OCR': {'OCR_JSON': ctx.json, 'USE_CPU': 'yes'}})
     ctx.page_ocr = pp.PageOCR(cfg['OCR'], torch.device('cpu'))
@@ -84,6 +88,9 @@ def gen(rng, i, ctx):
         case['batch_size'] = int(rng.choice([1, 2, 4]))
         case['limit'] = int(480 * case['batch_size'] * float(rng.choice([0.5, 2.0, 1.5])))
         case['widths'] = [int(x) for x in rng.integers(100, 2 * case['limit'], size=int(rng.integers(1, 6)))]
+    if cls == 'changed_padding':
+        case['batch_size'] = int(rng.choice([1, 3, 8]))
+        case['padding'] = int(rng.choice([30, 34, 18, 33, 31, 64, 8]))
     if cls == 'page_ocr_many':
         n = int(rng.choice([513, 600, 777, 1025, 1300]))
         case['widths'] = [int(x) for x in rng.integers(4, 40, size=n)]
@@ -108,13 +115,13 @@ def make_lines(case):
     return out
 
 
-def alone(ctx, img, net=None):
+def alone(ctx, img, net=None, pad=32):
     """the network's output for this image alone, padded exactly as the engine pads a single line"""
     torch = ctx.torch
     w = img.shape[1]
-    W = int(np.ceil(w / 32.0) * 32) + 64
+    W = int(np.ceil(w / 32.0) * 32) + 2 * pad
     x = np.zeros((1, H, W, 3), np.uint8)
-    x[0, :, 32:32 + w] = img
+    x[0, :, pad:pad + w] = img
     with torch.no_grad():
         y = (net or ctx.net)(torch.from_numpy(x).float().permute(0, 3, 1, 2) / 255.0)[0].T.numpy()
     return y
@@ -157,6 +164,10 @@ def check(case, mon, ctx):
         eng = ctx.engines_lim[bs]
         eng.max_input_horizontal_pixels = case['limit']
         mon.count('lists_after_the_pixel_budget_was_changed')
+    if case['cls'] == 'changed_padding':
+        eng = ctx.engines_pad[bs]
+        eng.line_padding_px = case['padding']
+        mon.count('lists_with_another_padding')
     if case['cls'] == 'embedding':
         eng = ctx.engines_emb[bs]
         eng.embed_id = case['embed_id']                 # re-assigned on a long-lived engine that recognised other lists with other ids before
@@ -170,6 +181,8 @@ def check(case, mon, ctx):
         mon.mark_nontrivial()
     if case['cls'] in ('page_ocr', 'page_ocr_many'):
         return check_page_ocr(case, lines, mon, ctx)
+    if case['cls'] == 'transformer_mode':
+        return check_transformer(case, mon, ctx)
     if case['cls'] == 'after_fault' and k >= 2:
         # fault injection: the network fails once (an out-of-memory RuntimeError) during an earlier call on this long-lived engine;
         # whatever that call does, later calls must recognise every line as before
@@ -206,15 +219,19 @@ def check(case, mon, ctx):
     widest_padded = (int(np.ceil(max(ws) / 32.0) * 32) + 64) if ws else 0
     if ws and sum(int(np.ceil(w / 32.0) * 32) for w in ws) > limit:
         mon.count('multi_batch_lists')
-    refs = [alone(ctx, img, net) for img in lines]
+    pad = int(eng.line_padding_px)
+    refs = [alone(ctx, img, net, pad) for img in lines]
     if hot:
         mon.count('extreme_logit_lists')
         mon.observe_max('logit_range_between_frames', max([float(r.max(axis=1).max() - r.max(axis=1).min()) for r in refs] or [0.0]))
     for i, (img, w) in enumerate(zip(lines, ws)):
         mon.count('lines_checked')
         ref = refs[i]
-        a, b = int(np.ceil(32 / 4)), (32 + w) // 4
-        maybe_trunc = (32 + w) > limit      # the line's own right edge lies beyond what the engine feeds to the network
+        # frames lying wholly inside the un-padded extent of the line: [a, b); when the padding is not a multiple of the frame width the window may
+        # also include the frame that straddles either edge (a - 1, b)
+        a, b = -(-pad // 4), (pad + w) // 4
+        starts, ends = {pad // 4, a}, {b, -(-(pad + w) // 4)}
+        maybe_trunc = (pad + w) > limit      # the line's own right edge lies beyond what the engine feeds to the network
         wit = {'position': i, 'width': w, 'batch_size': bs, 'mode': mode}
         if maybe_trunc:
             mon.count('truncated_lines')
@@ -234,19 +251,23 @@ def check(case, mon, ctx):
             mon.count('tight_compared')
             if co[i] != [None, None]:
                 mon.violation('frame-window', dict(wit, coords=co[i], note='tight crop must report an unknown window'))
+            ok_ = False
+            for s0 in sorted(starts):
+                for e0 in sorted(ends):
+                    rr = ref[s0:max(s0, e0)]
+                    if mode == 'tight_sparse' and Lg.shape == rr.shape:
+                        pp_ = np.exp(rr.astype(np.float64) - np.logaddexp.reduce(rr.astype(np.float64), axis=1)[:, None]) if rr.size else rr
+                        ok_ = ok_ or ((maxdiff(Lg[pp_ > 1.2e-4], rr[pp_ > 1.2e-4]) <= 1e-4 and not np.any(Lg[pp_ < 0.8e-4] != 0)) if rr.size else True)
+                    else:
+                        ok_ = ok_ or (Lg.shape == rr.shape and maxdiff(Lg, rr) <= 1e-4)
             rr = ref[a:b]
-            if mode == 'tight_sparse' and Lg.shape == rr.shape:
-                pp_ = np.exp(rr.astype(np.float64) - np.logaddexp.reduce(rr.astype(np.float64), axis=1)[:, None]) if rr.size else rr
-                ok_ = (maxdiff(Lg[pp_ > 1.2e-4], rr[pp_ > 1.2e-4]) <= 1e-4 and not np.any(Lg[pp_ < 0.8e-4] != 0)) if rr.size else True
-            else:
-                ok_ = Lg.shape == rr.shape and maxdiff(Lg, rr) <= 1e-4
             if not maybe_trunc and not ok_:
                 mon.violation('logits-are-the-lines-own', dict(wit, shape=Lg.shape, expected_shape=rr.shape))
             continue
         mon.count('window_checked')
-        if list(co[i]) != [a, b] and not (maybe_trunc and co[i][0] == a):
-            mon.violation('frame-window', dict(wit, coords=co[i], expected=[a, b]))
-        if maybe_trunc:
+        if not (co[i][0] in starts and co[i][1] in ends) and not (maybe_trunc and co[i][0] in starts):
+            mon.violation('frame-window', dict(wit, coords=co[i], expected=[sorted(starts), sorted(ends)], padding=pad))
+        if maybe_trunc or b <= a:
             continue
         if b > Lg.shape[0]:
             mon.violation('frame-window', dict(wit, coords=co[i], frames=Lg.shape[0], note='window exceeds the returned frames of an untruncated line'))
@@ -285,6 +306,13 @@ def check(case, mon, ctx):
 
 def check_page_ocr(case, lines, mon, ctx):
     L = ctx.L
+    if case['cls'] == 'page_ocr' and case['perm_seed'] % 2 == 0:
+        # the blank double-precision square that LineCropper stores when cropping a line fails, next to an all-black 8-bit crop that occupies as many bytes
+        lines = list(lines) + [np.zeros((H, H, 3)), np.zeros((H, 8 * H, 3), np.uint8)]
+        if case['perm_seed'] % 4 == 0:
+            lines[-1], lines[-2] = lines[-2], lines[-1]
+        case = dict(case, widths=list(case['widths']) + [int(lines[-2].shape[1]), int(lines[-1].shape[1])])
+        mon.count('page_ocr_pages_with_blank_crops_of_equal_byte_size')
     pl = L.PageLayout(id='p', page_size=(100, 100))
     regs = [L.RegionLayout('r%d' % r, np.array([[0, 0], [10, 0], [10, 10]])) for r in range(3)]
     for i, img in enumerate(lines):
@@ -341,3 +369,25 @@ def check_page_ocr(case, lines, mon, ctx):
         if line.transcription != collapse_text(ref2, eng.characters) or list(line.logit_coords) != [a2, b2]:
             mon.violation('transcription-is-the-lines-own', {'via': 'PageOCR on a page that was recognised before and partly re-cropped', 'line': line.id, 'width_now': int(img2.shape[1]),
                           'got': line.transcription, 'expected': collapse_text(ref2, eng.characters), 'coords': line.logit_coords, 'expected_coords': [a2, b2]})
+
+
+def check_transformer(case, mon, ctx):
+    """sequence-to-sequence engine: one logit row per character of the line's own transcription, window = all of them, whatever else is in the batch"""
+    rng = np.random.default_rng(case['pix_seed'])
+    ws = [int(x) for x in rng.choice([16, 40, 64, 77, 90, 120, 200, 300], size=max(2, min(8, len(case['widths']) or 2)))]
+    lines = [rng.integers(0, 256, size=(32, w, 3)).astype(np.uint8) for w in ws]
+    eng = ctx.teng
+    sparse = case['mode'] in ('sparse', 'tight_sparse')
+    with contextlib.redirect_stdout(io.StringIO()):
+        tr, lg, co = eng.process_lines(list(lines), sparse_logits=sparse)
+    mon.count('lists')
+    mon.observe('transformer transcriptions', tr)
+    if len({len(t) for t in tr}) >= 2:
+        mon.count('transformer_lists_with_transcriptions_of_different_lengths')
+        mon.mark_nontrivial()
+    for i, (t, l, c) in enumerate(zip(tr, lg, co)):
+        mon.count('lines_checked')
+        rows = l.shape[0]
+        if list(c) != [0, len(t)] or rows != len(t) or l.shape[1] != len(eng.characters):
+            mon.violation('frame-window', {'engine': 'transformer', 'position': i, 'width': ws[i], 'characters_in_transcription': len(t), 'logit_rows': rows, 'window': c,
+                          'transcription_lengths_in_the_batch': [len(x) for x in tr], 'note': 'one logit row per character of the line, the window covers all of them'})
